@@ -1712,6 +1712,25 @@ class _Quantifiers(ast.NodeTransformer):
         `last = xs[-1]` (the starred name never read)."""
         self.generic_visit(node)
         t = node.targets[0] if len(node.targets) == 1 else None
+        v = node.value
+        if isinstance(t, ast.Tuple) and self.loaded and \
+                all(isinstance(e, ast.Name) for e in t.elts) and \
+                isinstance(v, ast.Subscript) and \
+                isinstance(v.slice, ast.Slice) and v.slice.lower is None \
+                and v.slice.step is None and \
+                isinstance(v.slice.upper, ast.Constant) and \
+                v.slice.upper.value == len(t.elts) and \
+                _stable_path(v.value) and not any(
+                    isinstance(n, ast.Name) and n.id in
+                    {e.id for e in t.elts} for n in ast.walk(v.value)):
+            # `a, b = xs[:2]` is `a = xs[0]; b = xs[1]`
+            self.count += 1
+            return [ast.copy_location(ast.Assign(
+                targets=[ast.Name(id=e.id, ctx=ast.Store())],
+                value=ast.Subscript(value=copy.deepcopy(v.value),
+                                    slice=ast.Constant(value=i),
+                                    ctx=ast.Load()),
+                lineno=node.lineno), node) for i, e in enumerate(t.elts)]
         if not (isinstance(t, ast.Tuple) and self.loaded and
                 _stable_path(node.value) and
                 sum(isinstance(e, ast.Starred) for e in t.elts) == 1 and
@@ -1874,7 +1893,7 @@ def desugar(trees):
     return n
 
 
-def module_constants(tree):
+def module_constants(tree, others=()):
     """{name: value} of module-level names bound exactly once (anywhere in
     the module, including `global` rebinding) to a literal: constants,
     tuples / lists / sets of literals or plain names (classes), string
@@ -1902,6 +1921,23 @@ def module_constants(tree):
                 e.args and all(literal(a) or isinstance(a, ast.Attribute)
                                for a in e.args) and not e.keywords:
             return True         # a compiled pattern is as good as its text
+        if _getter(e) is not None:
+            return True         # itemgetter('k'): the function x -> x['k']
+        if isinstance(e, ast.Call) and isinstance(e.func, ast.Name) and \
+                e.func.id == 'float' and len(e.args) == 1 and \
+                not e.keywords and isinstance(e.args[0], ast.Constant) and \
+                e.args[0].value in ('inf', '-inf', '+inf'):
+            return True
+        return False
+
+    def container(e):
+        """A list / set / dict of literals: one shared object, so it is a
+        constant only when the module never does anything but read it."""
+        if isinstance(e, (ast.List, ast.Set)):
+            return all(literal(x) for x in e.elts)
+        if isinstance(e, ast.Dict):
+            return all(k is not None and literal(k) and literal(v)
+                       for k, v in zip(e.keys, e.values))
         return False
     count = {}
     for st in tree.body:
@@ -1924,16 +1960,86 @@ def module_constants(tree):
     for st in tree.body:
         if isinstance(st, ast.Assign) and len(st.targets) == 1 and \
                 isinstance(st.targets[0], ast.Name) and \
-                count.get(st.targets[0].id) == 1 and literal(st.value):
+                count.get(st.targets[0].id) == 1 and (
+                    literal(st.value) or (
+                        container(st.value) and
+                        _only_read(tree, st.targets[0].id, others))):
             out[st.targets[0].id] = st.value
     return out
+
+
+_READ_METHODS = ('get', 'keys', 'values', 'items', 'index', 'count', 'copy')
+_READ_FUNCS = ('len', 'sorted', 'list', 'tuple', 'set', 'dict', 'frozenset',
+               'enumerate', 'any', 'all', 'iter', 'reversed', 'max', 'min',
+               'sum')
+
+
+def _only_read(tree, name, others=()):
+    """Every use of the module-level `name` reads it (subscript, membership,
+    iteration, read-only methods, pure builtins) and no other module
+    mentions it."""
+    for t in others:
+        for x in ast.walk(t):
+            if (isinstance(x, ast.alias) and name in (x.name, x.asname)) or \
+                    (isinstance(x, ast.Attribute) and x.attr == name):
+                return False
+    pm = {}
+    for x in ast.walk(tree):
+        for ch in ast.iter_child_nodes(x):
+            pm[ch] = x
+    for x in ast.walk(tree):
+        if not (isinstance(x, ast.Name) and x.id == name and
+                isinstance(x.ctx, ast.Load)):
+            continue
+        p = pm.get(x)
+        if isinstance(p, ast.Subscript) and p.value is x and \
+                isinstance(p.ctx, ast.Load):
+            continue
+        if isinstance(p, ast.Compare) and x in p.comparators and all(
+                isinstance(o, (ast.In, ast.NotIn)) for o in p.ops):
+            continue
+        if isinstance(p, ast.Attribute) and p.attr in _READ_METHODS and \
+                isinstance(pm.get(p), ast.Call) and pm[p].func is p:
+            continue
+        if isinstance(p, (ast.For, ast.comprehension)) and p.iter is x:
+            continue
+        if isinstance(p, ast.Call) and isinstance(p.func, ast.Name) and \
+                p.func.id in _READ_FUNCS and x in p.args:
+            continue
+        return False
+    return True
+
+
+def _getter(e):
+    """('item', key) for itemgetter(<constant>), ('attr', name) for
+    attrgetter('<identifier>'), else None."""
+    if isinstance(e, ast.Call) and len(e.args) == 1 and not e.keywords and \
+            isinstance(e.args[0], ast.Constant):
+        fn = e.func.attr if isinstance(e.func, ast.Attribute) and \
+            isinstance(e.func.value, ast.Name) and \
+            e.func.value.id == 'operator' else \
+            e.func.id if isinstance(e.func, ast.Name) else None
+        if fn == 'itemgetter':
+            return ('item', e.args[0].value)
+        if fn == 'attrgetter' and isinstance(e.args[0].value, str) and \
+                e.args[0].value.isidentifier():
+            return ('attr', e.args[0].value)
+    return None
+
+
+def _apply_getter(kind, key, arg):
+    if kind == 'item':
+        return ast.Subscript(value=arg, slice=ast.Constant(value=key),
+                             ctx=ast.Load())
+    return ast.Attribute(value=arg, attr=key, ctx=ast.Load())
 
 
 def census_constants(trees):
     out = set()
     for path, tree in trees.items():
         mod = modname_of(path)
-        for name in module_constants(tree):
+        others = [t for p_, t in trees.items() if p_ != path]
+        for name in module_constants(tree, others):
             out.add('const:%s.%s' % (mod, name))
     return out
 
@@ -1946,7 +2052,8 @@ def inline_new_constants(trees, known):
         mod = modname_of(path)
         if not any(k.startswith(mod + '.') for k in known):
             continue
-        consts = {n: v for n, v in module_constants(tree).items()
+        others = [t for p_, t in trees.items() if p_ != path]
+        consts = {n: v for n, v in module_constants(tree, others).items()
                   if 'const:%s.%s' % (mod, n) not in known and
                   not n.startswith('__')}
         if not consts:
@@ -1972,10 +2079,32 @@ def inline_new_constants(trees, known):
             visit_AsyncFunctionDef = _scope
             visit_Lambda = _scope
 
+            def visit_Call(self, node):
+                f_ = node.func
+                if isinstance(f_, ast.Name) and f_.id in consts and \
+                        f_.id not in self.shadow[-1] and \
+                        _getter(consts[f_.id]) is not None and \
+                        len(node.args) == 1 and not node.keywords and \
+                        not isinstance(node.args[0], ast.Starred):
+                    used.add(f_.id)
+                    arg = self.visit(node.args[0])
+                    return ast.copy_location(_apply_getter(
+                        *_getter(consts[f_.id]), arg), node)
+                return self.generic_visit(node)
+
             def visit_Name(self, node):
                 if isinstance(node.ctx, ast.Load) and node.id in consts \
                         and node.id not in self.shadow[-1]:
                     used.add(node.id)
+                    g = _getter(consts[node.id])
+                    if g is not None:
+                        # as a value: the function itself, written out
+                        return ast.copy_location(ast.Lambda(
+                            args=ast.arguments(
+                                posonlyargs=[], args=[ast.arg(arg='elem')],
+                                kwonlyargs=[], kw_defaults=[], defaults=[]),
+                            body=_apply_getter(*g, ast.Name(
+                                id='elem', ctx=ast.Load()))), node)
                     return ast.copy_location(copy.deepcopy(consts[node.id]),
                                              node)
                 return node
@@ -2120,6 +2249,114 @@ class _Thread(ast.NodeTransformer):
         return st
 
 
+class _TableLookup(ast.NodeTransformer):
+    """class K:  TABLE = {2: 'a/%s', 3: 'b/%s'}
+           ... name = self.TABLE[key] % args        (or without `% args`)
+       ->  if key == 2: name = 'a/%s' % args
+           elif key == 3: name = 'b/%s' % args
+           else: raise KeyError(key)
+    for a class-level dict of constants that is bound once, only ever read
+    as `self.TABLE[...]`, defined by no other class, with at most 6 keys and
+    a key expression that can be written out several times."""
+    def __init__(self, tree):
+        self.count = 0
+        self.tree = tree
+        self.tables = []
+
+    def visit_ClassDef(self, node):
+        tables = {}
+        seen = {}
+        for st in node.body:
+            for x in ast.walk(st) if not isinstance(
+                    st, (ast.FunctionDef, ast.AsyncFunctionDef)) else ():
+                if isinstance(x, ast.Name) and isinstance(x.ctx, ast.Store):
+                    seen[x.id] = seen.get(x.id, 0) + 1
+        for st in node.body:
+            if isinstance(st, ast.Assign) and len(st.targets) == 1 and \
+                    isinstance(st.targets[0], ast.Name) and \
+                    seen.get(st.targets[0].id) == 1 and \
+                    isinstance(st.value, ast.Dict) and \
+                    1 <= len(st.value.keys) <= 6 and all(
+                        isinstance(k, ast.Constant) and
+                        isinstance(v, ast.Constant)
+                        for k, v in zip(st.value.keys, st.value.values)) \
+                    and self._read_only(node, st.targets[0].id):
+                tables[st.targets[0].id] = st.value
+        self.tables.append(tables)
+        self.generic_visit(node)
+        self.tables.pop()
+        return node
+
+    def _read_only(self, owner, name):
+        pm = {}
+        for x in ast.walk(self.tree):
+            for ch in ast.iter_child_nodes(x):
+                pm[ch] = x
+        inside = {id(x) for x in ast.walk(owner)}
+        for x in ast.walk(self.tree):
+            if isinstance(x, ast.ClassDef) and x is not owner and any(
+                    isinstance(t, ast.Name) and t.id == name
+                    for st in x.body if isinstance(st, ast.Assign)
+                    for t in st.targets):
+                return False
+            if isinstance(x, ast.Constant) and x.value == name:
+                return False
+            if isinstance(x, ast.Attribute) and x.attr == name:
+                p = pm.get(x)
+                if not (id(x) in inside and isinstance(x.value, ast.Name) and
+                        x.value.id == 'self' and
+                        isinstance(x.ctx, ast.Load) and
+                        isinstance(p, ast.Subscript) and p.value is x and
+                        isinstance(p.ctx, ast.Load)):
+                    return False
+            if isinstance(x, ast.Name) and x.id == name and \
+                    isinstance(x.ctx, ast.Load) and id(x) in inside:
+                return False
+        return True
+
+    def _lookup(self, e):
+        """(table dict, key expr) when e is self.TABLE[key]."""
+        if isinstance(e, ast.Subscript) and \
+                isinstance(e.value, ast.Attribute) and \
+                isinstance(e.value.value, ast.Name) and \
+                e.value.value.id == 'self' and self.tables and \
+                e.value.attr in self.tables[-1] and \
+                not isinstance(e.slice, ast.Slice) and \
+                _dup_safe_arg(e.slice):
+            return self.tables[-1][e.value.attr], e.slice
+        return None
+
+    def visit_Assign(self, node):
+        if not (len(node.targets) == 1 and
+                isinstance(node.targets[0], ast.Name)):
+            return node
+        v = node.value
+        hit = self._lookup(v)
+        rest = None
+        if hit is None and isinstance(v, ast.BinOp) and \
+                isinstance(v.op, ast.Mod):
+            hit, rest = self._lookup(v.left), v.right
+        if hit is None:
+            return node
+        table, key = hit
+        chain = [ast.copy_location(ast.Raise(exc=ast.Call(
+            func=ast.Name(id='KeyError', ctx=ast.Load()),
+            args=[copy.deepcopy(key)], keywords=[]), cause=None), node)]
+        for k, val in reversed(list(zip(table.keys, table.values))):
+            value = copy.deepcopy(val) if rest is None else ast.BinOp(
+                left=copy.deepcopy(val), op=ast.Mod(),
+                right=copy.deepcopy(rest))
+            body = [ast.copy_location(ast.Assign(
+                targets=[ast.Name(id=node.targets[0].id, ctx=ast.Store())],
+                value=value, lineno=node.lineno), node)]
+            test = ast.Compare(left=copy.deepcopy(key), ops=[ast.Eq()],
+                               comparators=[copy.deepcopy(k)])
+            chain = [ast.copy_location(ast.If(test=test, body=body,
+                                              orelse=chain), node)]
+        self.count += 1
+        return chain
+
+
 def thread_decisions(trees):
     n = 0
     for t in trees.values():
@@ -2146,6 +2383,12 @@ def normalise(trees, known=None):
             ast.fix_missing_locations(t)
         n += q.count
     n += thread_decisions(trees)
+    for t in trees.values():
+        tl = _TableLookup(t)
+        tl.visit(t)
+        if tl.count:
+            ast.fix_missing_locations(t)
+        n += tl.count
     if n:
         log.append(('<return any/all as loop, calls through a local>', n, False))
     return log
